@@ -107,6 +107,30 @@ Fixpoint monotone (hw : list (N * N)) (sts : list step) : bool :=
 Definition honest (g : gworld) (sts : list step) : bool :=
   world_ok g && genuine (world_of g) sts && forallb (step_honest g) sts && monotone [] sts.
 
+(* The known-finding class F21: everything as above except that the files served to the run that is killed are
+   only bound by hash integrity — a delta document with other elements than the history's (and therefore with a
+   hash that does not match) may be among them.  Its elements are applied before its hash is checked, so a kill
+   can leave them in the archive under the old serial. *)
+Definition step_truthful (g : gworld) (st : step) : bool :=
+  match s_notify st with
+  | NOk nf => match truth (world_of g) (nf_session nf) (nf_serial nf) with Some _ => true | None => false end
+  | N304 => false
+  | _ => true
+  end.
+
+Fixpoint honest_but (g : gworld) (sts : list step) (t : N) : bool :=
+  match sts with
+  | [] => true
+  | st :: sts' => (if t =? 0 then step_truthful g st else step_honest g st) &&
+                  honest_but g sts' (if t =? 0 then N.of_nat (length sts) + 1 else t - 1)
+  end.
+
+Definition honest_weak (g : gworld) (sts : list step) (crash : option (N * N)) : bool :=
+  match crash with
+  | Some (t, _) => world_ok g && genuine (world_of g) sts && honest_but g sts t && monotone [] sts
+  | None => false
+  end.
+
 (* ---- the property: every run that completes is judged as in C25 (a run reported as updated leaves exactly the
    server's snapshot at the notified serial), whatever happened to earlier runs; the killed run itself reports
    nothing ---- *)
@@ -141,10 +165,14 @@ Fixpoint cobss_eqb (a b : list cobs) : bool :=
 
 (* Result codes: 0 the model's runs (kill points passed, copy on disk after the kill, every later run) equal the
    implementation's and the property holds on the implementation's output; 1 the property holds on the
-   implementation's output but the model differs; 2 the property fails on the implementation's output. *)
+   implementation's output but the model differs; 2 the property fails on the implementation's output; 3 the
+   property fails on the implementation's output and the case is in the known-finding class F21 (the killed run
+   was served a delta document that is not the server's). *)
 Record case := { k_cfg : config; k_world : gworld; k_steps : list step; k_crash : option (N * N);
                  k_impl : list cobs }.
 
 Definition check_case (c : case) : N :=
   if negb (cspec_okb (k_world c) (k_steps c) (k_impl c)) then 2
+  else if negb (honest (k_world c) (k_steps c)) && honest_weak (k_world c) (k_steps c) (k_crash c)
+          && negb (csteps_okb (world_of (k_world c)) None (k_steps c) (k_impl c)) then 3
   else if cobss_eqb (cmodel_obs (k_cfg c) (k_steps c) (k_crash c)) (k_impl c) then 0 else 1.
